@@ -64,3 +64,321 @@ Example C08_example :
   @filter_worst FloatNum (@reduced_height FloatNum yo red) [1; 2; 3] = [1; 3] /\
   @pipeline FloatNum red (rows red) yo [1; 2; 3] (fun l => l) (fun l => tl l) = Some [5].
 Proof. vm_compute. auto. Qed.
+
+(* =====================================================================================================================
+   The stage hypotheses DISCHARGED by the concrete models of the other properties (Model/PipelineClosed.v,
+   Proofs/PipelineClosedFacts.v).  Sub = subsequence (Proofs/PipelineFacts.v); a stage is list nat -> option (list nat)
+   (None = the stage raised). *)
+From Coq Require Import Permutation.
+From Knee Require Import Model.Filters Model.ClusterFilter Model.Clustering Model.MultiKnee Model.Hull Model.Rdp Model.RdpFixed
+     Model.PipelineClosed Proofs.MultiKneeFacts Proofs.PipelineClosedFacts.
+
+
+(* C13: the corner-filter model (IoU computed in the model, bit-exact) never raises, only selects from its input, and
+   keeps exactly the knees the code's test keeps — for every Num (NaN / overflow included), curve, threshold, knee list *)
+Theorem C08_corner_stage : forall (N : Num) (pr : list (@Filters.point N)) (t : T N) (l : list nat),
+  exists r, corner_stage pr t l = Some r /\ r = filter_corner pr l t /\ Sub r l /\ corner_rule_b pr t l r = true.
+Proof. exact @corner_stage_ok. Qed.
+Print Assumptions C08_corner_stage.
+
+(* C12: the cluster-filter model, all four ranking modes, for every label list of the right shape (one label per knee,
+   first 0, steps 0/+1), every permutation-valued sorter (np.argsort), every score oracle with one value per member of a
+   multi-member cluster (not needed in hull mode), every hull list and distance oracle: completes and only selects from
+   its input; with >= 2 knees its result satisfies C12's predicate of the mode (one per cluster / hull_ok) *)
+Theorem C08_cluster_stage : forall (N : Num) (sorter : list (T N) -> list nat) (score : list nat -> list (T N))
+    (hull : list nat) (sdist : nat -> nat -> T N) (xs : list (T N)) (m : fmode),
+  (forall l, Permutation (sorter l) (seq 0 (length l))) ->
+  (is_hull m = false -> forall c, 2 <= length c -> length (score c) = length c) ->
+  forall labels knees, labels_ok labels knees = true -> SI knees ->
+  exists res, filter_clusters sorter score hull sdist xs m labels knees = Some res /\ Sub res knees /\
+              (2 <= length knees ->
+               (if is_hull m then hull_ok_b hull labels knees res else one_per_cluster_b labels knees res) = true).
+Proof. exact @fc_stage. Qed.
+Print Assumptions C08_cluster_stage.
+
+(* ... as a stage around any clustering callable whose labels have that shape (the callable is not consulted for <= 1 knee) *)
+Theorem C08_cluster_stage_callable : forall (N : Num) (sorter : list (T N) -> list nat) (score : list nat -> list (T N))
+    (hull : list nat) (sdist : nat -> nat -> T N) (xs : list (T N)) (m : fmode),
+  (forall l, Permutation (sorter l) (seq 0 (length l))) ->
+  (is_hull m = false -> forall c, 2 <= length c -> length (score c) = length c) ->
+  forall lab : list nat -> option (list nat),
+  (forall l, l <> [] -> exists labels, lab l = Some labels /\ labels_ok labels l = true) ->
+  forall l, SI l -> exists res, cluster_stage sorter score hull sdist xs m lab l = Some res /\ Sub res l.
+Proof. exact @cluster_stage_ok. Qed.
+Print Assumptions C08_cluster_stage_callable.
+
+(* C11: the four linkage models, applied to the x of the knees, return labels of that shape (computed in the model) *)
+Theorem C08_c11_labels_ok : forall (N : Num) (lk : linkage) (xs : list (T N)) (t : T N) (l : list nat),
+  l <> [] -> exists labels, c11_labels lk xs t l = Some labels /\ labels_ok labels l = true.
+Proof. exact @c11_labels_ok. Qed.
+Print Assumptions C08_c11_labels_ok.
+
+(* the worst-knee loop of Model/Pipeline.v is C13's filter_worst on points[reduced] *)
+Theorem C08_worst_is_C13 : forall (N : Num) (xo yo : nat -> T N) (red knees : list nat),
+  Forall (fun j => j < length red) knees ->
+  Filters.filter_worst (reduced_points xo yo red) knees = Pipeline.filter_worst (reduced_height yo red) knees.
+Proof. exact @worst_is_C13. Qed.
+Print Assumptions C08_worst_is_C13.
+
+(* the packaged conclusion `pipeline_post` is the conclusion of C08_pipeline_ok *)
+Theorem C08_pipeline_post_meaning : forall (N : Num) n red (yo : nat -> T N) knees k1 k2 k3 out,
+  pipeline_post n red yo knees k1 k2 k3 out <->
+  (k1 = Pipeline.filter_worst (reduced_height yo red) knees /\
+   out = map (fun j => nth j red 0) k3 /\
+   SI out /\ Forall (fun i => In i red /\ i < n) out /\
+   Sub k1 knees /\ Sub k2 k1 /\ Sub k3 k2 /\
+   NonInc (reduced_height yo red) k1 /\ NonInc (reduced_height yo red) k2 /\ NonInc (reduced_height yo red) k3 /\
+   NonInc yo out).
+Proof. exact pipeline_post_iff. Qed.
+Print Assumptions C08_pipeline_post_meaning.
+
+(* the composition theorem for stages that may raise, whose specification is required only on inputs the pipeline can
+   feed them (strictly increasing positions inside the reduced curve) *)
+Theorem C08_pipeline_opt_ok : forall (N : Num) (n : nat) (red : list nat) (yo : nat -> T N) (knees : list nat)
+    (f_corner f_cluster : list nat -> option (list nat)) (P : T N -> Prop),
+  WF n red -> SI knees -> Forall (fun i => i < length red) knees ->
+  (forall l, SI l -> Forall (fun i => i < length red) l -> exists r, f_corner l = Some r /\ Sub r l) ->
+  (forall l, SI l -> Forall (fun i => i < length red) l -> exists r, f_cluster l = Some r /\ Sub r l) ->
+  TotalPreorderOn P -> (forall j, In j knees -> P (reduced_height yo red j)) ->
+  exists k1 k2 k3 out,
+    f_corner k1 = Some k2 /\ f_cluster k2 = Some k3 /\
+    pipeline_opt red (rows red) yo knees f_corner f_cluster = Some out /\
+    pipeline_post n red yo knees k1 k2 k3 out.
+Proof. exact @pipeline_opt_ok. Qed.
+Print Assumptions C08_pipeline_opt_ok.
+
+(* pipeline_ok instantiated with the two concrete filters — NO hypothesis on the filters remains: worst-knee filter,
+   C13 corner filter, C12 cluster filter (any mode) over C11 labels (any linkage), mapping.  Remaining hypotheses: the
+   simplifier's and detector's conclusions (discharged below), the shapes of the two oracles (sorter returns a
+   permutation, one score per cluster member), Tier O on the compared heights.  Last clause: the coordinates of every
+   output index are those of its reduced-space knee. *)
+Theorem C08_pipeline_filters_closed : forall (N : Num) (n : nat) (red : list nat) (xo yo : nat -> T N) (knees : list nat)
+    (tc : T N) (lk : linkage) (tl : T N) (sorter : list (T N) -> list nat) (score : list nat -> list (T N))
+    (hull : list nat) (sdist : nat -> nat -> T N) (m : fmode) (P : T N -> Prop),
+  WF n red -> SI knees -> Forall (fun i => i < length red) knees ->
+  (forall l, Permutation (sorter l) (seq 0 (length l))) ->
+  (is_hull m = false -> forall c, 2 <= length c -> length (score c) = length c) ->
+  TotalPreorderOn P -> (forall j, In j knees -> P (reduced_height yo red j)) ->
+  exists k1 k2 k3 out,
+    k2 = filter_corner (reduced_points xo yo red) k1 tc /\
+    cluster_stage sorter score hull sdist (map fst (reduced_points xo yo red)) m
+                  (c11_labels lk (map fst (reduced_points xo yo red)) tl) k2 = Some k3 /\
+    pipeline_filters red (rows red) xo yo knees tc lk tl sorter score hull sdist m = Some out /\
+    pipeline_post n red yo knees k1 k2 k3 out /\
+    map (fun i => (xo i, yo i)) out = map (Filters.pt (reduced_points xo yo red)) k3.
+Proof. exact @pipeline_filters_ok. Qed.
+Print Assumptions C08_pipeline_filters_closed.
+
+(* the same on binary64 with the executable stable sort as np.argsort and the order hypothesis discharged: this is the
+   model the correspondence run evaluates *)
+Theorem C08_pipeline_filters_closed_float : forall (n : nat) (red : list nat) (xo yo : nat -> float) (knees : list nat)
+    (tc : float) (lk : linkage) (tl : float) (score : list nat -> list float)
+    (hull : list nat) (sdist : nat -> nat -> float) (m : fmode),
+  WF n red -> SI knees -> Forall (fun i => i < length red) knees ->
+  (is_hull m = false -> forall c, 2 <= length c -> length (score c) = length c) ->
+  (forall j, In j knees -> f_isnan (@reduced_height FloatNum yo red j) = false) ->
+  let pr := @reduced_points FloatNum xo yo red in
+  exists k1 k2 k3 out,
+    k2 = @filter_corner FloatNum pr k1 tc /\
+    @cluster_stage FloatNum (@argsort_stable FloatNum) score hull sdist (map fst pr) m
+                   (@c11_labels FloatNum lk (map fst pr) tl) k2 = Some k3 /\
+    @pipeline_filters FloatNum red (rows red) xo yo knees tc lk tl (@argsort_stable FloatNum) score hull sdist m = Some out /\
+    @pipeline_post FloatNum n red yo knees k1 k2 k3 out /\
+    map (fun i => (xo i, yo i)) out = map (@Filters.pt FloatNum pr) k3.
+Proof. exact pipeline_filters_ok_float. Qed.
+Print Assumptions C08_pipeline_filters_closed_float.
+
+(* C02: the multi-knee model's output satisfies the two hypotheses on the knees (n' = length of the reduced curve), for
+   every straightness / single-knee oracle pair answering inside its slice (C02's own hypothesis knee_in_range) *)
+Theorem C08_multiknee_stage : forall (N : Num) (cost : mk_cost) (straight : nat -> nat -> T N)
+    (knee1 : nat -> nat -> option nat) (t1 : T N) (t2 lo n' : nat),
+  knee_in_range knee1 t2 lo n' ->
+  exists ks tr, multi_knee cost straight knee1 t1 t2 n' = Some (ks, tr) /\ SI ks /\ Forall (fun i => i < n') ks.
+Proof. exact @multiknee_stage. Qed.
+Print Assumptions C08_multiknee_stage.
+
+(* C01: each of the five simplifier models returns a well-formed reduction with removed = rows reduced, under that
+   model's own oracle-shape hypothesis (len(distance_points(points[l:r])) = r - l) and threshold domain *)
+Theorem C08_simplifier_stage : forall (N : Num) (n : nat) (dist : nat -> nat -> list (T N)),
+  2 <= n -> (forall l r, l + 3 <= r -> r <= n -> length (dist l r) = r - l) ->
+  (forall segcost r2 t, Rdp.curved r2 t (trivial_cost r2) = false ->
+     exists red, drop_vis (rdp dist segcost r2 t n) = Some (red, rows red) /\ WF n red) /\
+  (forall eps prio fuel k, n <= fuel ->
+     exists red, rdp_fixed n eps dist prio fuel k = Some (red, rows red) /\ WF n red) /\
+  (forall eps prio gcost is_r2 t fuel, n <= fuel ->
+     exists red, grdp n eps dist prio gcost is_r2 t fuel = Some (red, rows red) /\ WF n red) /\
+  (forall eps prio gcost is_r2 t fuel mp, n <= fuel ->
+     exists red, mp_grdp n eps dist prio gcost is_r2 t fuel mp = Some (red, rows red) /\ WF n red) /\
+  (forall eps prio gcost fuel ts mp, n <= fuel ->
+     exists red, min_point_rdp n eps dist prio gcost fuel ts mp = Some (red, rows red) /\ WF n red).
+Proof. exact simplifier_stage. Qed.
+Print Assumptions C08_simplifier_stage.
+
+(* the whole pipeline behind ANY simplifier output that is a well-formed reduction: multi-knee model on the reduced
+   curve (oracles are functions of the reduction), worst / corner / cluster filters (labels by the C11 model, lower hull
+   by the C18 model), mapping *)
+Theorem C08_pipeline_closed : forall (N : Num) (n : nat) (simp : option (list nat * list row)) (red : list nat)
+    (mkc : mk_cost) (straightR : list nat -> nat -> nat -> T N) (knee1R : list nat -> nat -> nat -> option nat)
+    (t1 : T N) (t2 lo : nat) (xo yo : nat -> T N) (tc : T N) (lk : linkage) (tl : T N)
+    (sorter : list (T N) -> list nat) (scoreR : list nat -> list nat -> list (T N))
+    (sdistR : list nat -> nat -> nat -> T N) (m : fmode) (P : T N -> Prop),
+  simp = Some (red, rows red) -> WF n red ->
+  knee_in_range (knee1R red) t2 lo (length red) ->
+  (forall l, Permutation (sorter l) (seq 0 (length l))) ->
+  (is_hull m = false -> forall c, 2 <= length c -> length (scoreR red c) = length c) ->
+  TotalPreorderOn P -> (forall i, i < n -> P (yo i)) ->
+  exists knees tr k1 k2 k3 out,
+    multi_knee mkc (straightR red) (knee1R red) t1 t2 (length red) = Some (knees, tr) /\
+    pipeline_closed simp mkc straightR knee1R t1 t2 xo yo tc lk tl sorter scoreR sdistR m = Some out /\
+    pipeline_post n red yo knees k1 k2 k3 out /\
+    k2 = filter_corner (reduced_points xo yo red) k1 tc /\
+    map (fun i => (xo i, yo i)) out = map (Filters.pt (reduced_points xo yo red)) k3.
+Proof. exact @pipeline_closed_ok. Qed.
+Print Assumptions C08_pipeline_closed.
+
+(* what `closed_post` says about a simplifier output *)
+Theorem C08_closed_post_meaning : forall (N : Num) n mkc (straightR : list nat -> nat -> nat -> T N) knee1R t1 t2 xo yo
+    tc lk tl sorter scoreR sdistR m simp,
+  closed_post n mkc straightR knee1R t1 t2 xo yo tc lk tl sorter scoreR sdistR m simp <->
+  exists red knees tr k1 k2 k3 out,
+    simp = Some (red, rows red) /\ WF n red /\
+    multi_knee mkc (straightR red) (knee1R red) t1 t2 (length red) = Some (knees, tr) /\
+    pipeline_closed simp mkc straightR knee1R t1 t2 xo yo tc lk tl sorter scoreR sdistR m = Some out /\
+    pipeline_post n red yo knees k1 k2 k3 out /\
+    k2 = filter_corner (reduced_points xo yo red) k1 tc /\
+    map (fun i => (xo i, yo i)) out = map (Filters.pt (reduced_points xo yo red)) k3.
+Proof. exact closed_post_iff. Qed.
+Print Assumptions C08_closed_post_meaning.
+
+(* FULLY CLOSED: each simplifier model in front.  Hypotheses left = the oracle-shape hypotheses of C01 / C02 / C12
+   (distance arrays have one entry per point; the single-knee oracle answers inside its slice; np.argsort returns a
+   permutation; one score per cluster member) + the simplifier's threshold domain + Tier O on the heights. *)
+Theorem C08_pipeline_closed_rdp : forall (N : Num) (n : nat) (mkc : mk_cost) (straightR : list nat -> nat -> nat -> T N)
+    (knee1R : list nat -> nat -> nat -> option nat) (t1 : T N) (t2 lo : nat) (xo yo : nat -> T N)
+    (tc : T N) (lk : linkage) (tl : T N) (sorter : list (T N) -> list nat)
+    (scoreR : list nat -> list nat -> list (T N)) (sdistR : list nat -> nat -> nat -> T N) (m : fmode) (P : T N -> Prop),
+  (forall red, knee_in_range (knee1R red) t2 lo (length red)) ->
+  (forall l, Permutation (sorter l) (seq 0 (length l))) ->
+  (is_hull m = false -> forall red c, 2 <= length c -> length (scoreR red c) = length c) ->
+  TotalPreorderOn P -> (forall i, i < n -> P (yo i)) ->
+  forall dist : nat -> nat -> list (T N),
+  2 <= n -> (forall l r, l + 3 <= r -> r <= n -> length (dist l r) = r - l) ->
+  forall (segcost : nat -> nat -> T N) (r2 : bool) (t : T N),
+  Rdp.curved r2 t (trivial_cost r2) = false ->
+  closed_post n mkc straightR knee1R t1 t2 xo yo tc lk tl sorter scoreR sdistR m (drop_vis (rdp dist segcost r2 t n)).
+Proof. exact @pipeline_closed_rdp. Qed.
+Print Assumptions C08_pipeline_closed_rdp.
+
+Theorem C08_pipeline_closed_rdp_fixed : forall (N : Num) (n : nat) (mkc : mk_cost) (straightR : list nat -> nat -> nat -> T N)
+    (knee1R : list nat -> nat -> nat -> option nat) (t1 : T N) (t2 lo : nat) (xo yo : nat -> T N)
+    (tc : T N) (lk : linkage) (tl : T N) (sorter : list (T N) -> list nat)
+    (scoreR : list nat -> list nat -> list (T N)) (sdistR : list nat -> nat -> nat -> T N) (m : fmode) (P : T N -> Prop),
+  (forall red, knee_in_range (knee1R red) t2 lo (length red)) ->
+  (forall l, Permutation (sorter l) (seq 0 (length l))) ->
+  (is_hull m = false -> forall red c, 2 <= length c -> length (scoreR red c) = length c) ->
+  TotalPreorderOn P -> (forall i, i < n -> P (yo i)) ->
+  forall dist : nat -> nat -> list (T N),
+  2 <= n -> (forall l r, l + 3 <= r -> r <= n -> length (dist l r) = r - l) ->
+  forall (eps : T N) (prio : nat -> nat -> T N) (fuel k : nat), n <= fuel ->
+  closed_post n mkc straightR knee1R t1 t2 xo yo tc lk tl sorter scoreR sdistR m (rdp_fixed n eps dist prio fuel k).
+Proof. exact @pipeline_closed_rdp_fixed. Qed.
+Print Assumptions C08_pipeline_closed_rdp_fixed.
+
+Theorem C08_pipeline_closed_grdp : forall (N : Num) (n : nat) (mkc : mk_cost) (straightR : list nat -> nat -> nat -> T N)
+    (knee1R : list nat -> nat -> nat -> option nat) (t1 : T N) (t2 lo : nat) (xo yo : nat -> T N)
+    (tc : T N) (lk : linkage) (tl : T N) (sorter : list (T N) -> list nat)
+    (scoreR : list nat -> list nat -> list (T N)) (sdistR : list nat -> nat -> nat -> T N) (m : fmode) (P : T N -> Prop),
+  (forall red, knee_in_range (knee1R red) t2 lo (length red)) ->
+  (forall l, Permutation (sorter l) (seq 0 (length l))) ->
+  (is_hull m = false -> forall red c, 2 <= length c -> length (scoreR red c) = length c) ->
+  TotalPreorderOn P -> (forall i, i < n -> P (yo i)) ->
+  forall dist : nat -> nat -> list (T N),
+  2 <= n -> (forall l r, l + 3 <= r -> r <= n -> length (dist l r) = r - l) ->
+  forall (eps : T N) (prio : nat -> nat -> T N) (gcost : list nat -> T N) (is_r2 : bool) (t : T N) (fuel : nat), n <= fuel ->
+  closed_post n mkc straightR knee1R t1 t2 xo yo tc lk tl sorter scoreR sdistR m (grdp n eps dist prio gcost is_r2 t fuel).
+Proof. exact @pipeline_closed_grdp. Qed.
+Print Assumptions C08_pipeline_closed_grdp.
+
+Theorem C08_pipeline_closed_mp_grdp : forall (N : Num) (n : nat) (mkc : mk_cost) (straightR : list nat -> nat -> nat -> T N)
+    (knee1R : list nat -> nat -> nat -> option nat) (t1 : T N) (t2 lo : nat) (xo yo : nat -> T N)
+    (tc : T N) (lk : linkage) (tl : T N) (sorter : list (T N) -> list nat)
+    (scoreR : list nat -> list nat -> list (T N)) (sdistR : list nat -> nat -> nat -> T N) (m : fmode) (P : T N -> Prop),
+  (forall red, knee_in_range (knee1R red) t2 lo (length red)) ->
+  (forall l, Permutation (sorter l) (seq 0 (length l))) ->
+  (is_hull m = false -> forall red c, 2 <= length c -> length (scoreR red c) = length c) ->
+  TotalPreorderOn P -> (forall i, i < n -> P (yo i)) ->
+  forall dist : nat -> nat -> list (T N),
+  2 <= n -> (forall l r, l + 3 <= r -> r <= n -> length (dist l r) = r - l) ->
+  forall (eps : T N) (prio : nat -> nat -> T N) (gcost : list nat -> T N) (is_r2 : bool) (t : T N) (fuel mp : nat), n <= fuel ->
+  closed_post n mkc straightR knee1R t1 t2 xo yo tc lk tl sorter scoreR sdistR m (mp_grdp n eps dist prio gcost is_r2 t fuel mp).
+Proof. exact @pipeline_closed_mp_grdp. Qed.
+Print Assumptions C08_pipeline_closed_mp_grdp.
+
+Theorem C08_pipeline_closed_min_point_rdp : forall (N : Num) (n : nat) (mkc : mk_cost) (straightR : list nat -> nat -> nat -> T N)
+    (knee1R : list nat -> nat -> nat -> option nat) (t1 : T N) (t2 lo : nat) (xo yo : nat -> T N)
+    (tc : T N) (lk : linkage) (tl : T N) (sorter : list (T N) -> list nat)
+    (scoreR : list nat -> list nat -> list (T N)) (sdistR : list nat -> nat -> nat -> T N) (m : fmode) (P : T N -> Prop),
+  (forall red, knee_in_range (knee1R red) t2 lo (length red)) ->
+  (forall l, Permutation (sorter l) (seq 0 (length l))) ->
+  (is_hull m = false -> forall red c, 2 <= length c -> length (scoreR red c) = length c) ->
+  TotalPreorderOn P -> (forall i, i < n -> P (yo i)) ->
+  forall dist : nat -> nat -> list (T N),
+  2 <= n -> (forall l r, l + 3 <= r -> r <= n -> length (dist l r) = r - l) ->
+  forall (eps : T N) (prio : nat -> nat -> T N) (gcost : list nat -> T N) (fuel : nat) (ts : list (T N)) (mp : nat), n <= fuel ->
+  closed_post n mkc straightR knee1R t1 t2 xo yo tc lk tl sorter scoreR sdistR m (min_point_rdp n eps dist prio gcost fuel ts mp).
+Proof. exact @pipeline_closed_min_point_rdp. Qed.
+Print Assumptions C08_pipeline_closed_min_point_rdp.
+
+(* binary64 instances (executable stable sort as np.argsort; heights not NaN): rdp.rdp and rdp.rdp_fixed in front *)
+Theorem C08_pipeline_closed_rdp_float : forall (n : nat) (mkc : mk_cost) (straightR : list nat -> nat -> nat -> float)
+    (knee1R : list nat -> nat -> nat -> option nat) (t1 : float) (t2 lo : nat) (xo yo : nat -> float)
+    (tc : float) (lk : linkage) (tl : float) (scoreR : list nat -> list nat -> list float)
+    (sdistR : list nat -> nat -> nat -> float) (m : fmode)
+    (dist : nat -> nat -> list float) (segcost : nat -> nat -> float) (r2 : bool) (t : float),
+  (forall red, knee_in_range (knee1R red) t2 lo (length red)) ->
+  (is_hull m = false -> forall red c, 2 <= length c -> length (scoreR red c) = length c) ->
+  (forall i, i < n -> f_isnan (yo i) = false) ->
+  2 <= n -> (forall l r, l + 3 <= r -> r <= n -> length (dist l r) = r - l) ->
+  @Rdp.curved FloatNum r2 t (@trivial_cost FloatNum r2) = false ->
+  @closed_post FloatNum n mkc straightR knee1R t1 t2 xo yo tc lk tl (@argsort_stable FloatNum) scoreR sdistR m
+    (drop_vis (@rdp FloatNum dist segcost r2 t n)).
+Proof. exact pipeline_closed_rdp_float. Qed.
+Print Assumptions C08_pipeline_closed_rdp_float.
+
+Theorem C08_pipeline_closed_rdp_fixed_float : forall (n : nat) (mkc : mk_cost) (straightR : list nat -> nat -> nat -> float)
+    (knee1R : list nat -> nat -> nat -> option nat) (t1 : float) (t2 lo : nat) (xo yo : nat -> float)
+    (tc : float) (lk : linkage) (tl : float) (scoreR : list nat -> list nat -> list float)
+    (sdistR : list nat -> nat -> nat -> float) (m : fmode)
+    (dist : nat -> nat -> list float) (eps : float) (prio : nat -> nat -> float) (fuel k : nat),
+  (forall red, knee_in_range (knee1R red) t2 lo (length red)) ->
+  (is_hull m = false -> forall red c, 2 <= length c -> length (scoreR red c) = length c) ->
+  (forall i, i < n -> f_isnan (yo i) = false) ->
+  2 <= n -> (forall l r, l + 3 <= r -> r <= n -> length (dist l r) = r - l) ->
+  n <= fuel ->
+  @closed_post FloatNum n mkc straightR knee1R t1 t2 xo yo tc lk tl (@argsort_stable FloatNum) scoreR sdistR m
+    (@rdp_fixed FloatNum n eps dist prio fuel k).
+Proof. exact pipeline_closed_rdp_fixed_float. Qed.
+Print Assumptions C08_pipeline_closed_rdp_fixed_float.
+
+(* non-vacuity of the closed pipeline on doubles: 10-point curve, reduction [0;2;3;5;6;7;9] (reduced curve
+   (0,20) (2,11) (3,6) (5,5) (6,2) (7,2.5) (9,0.5)); the single-knee oracle answers the middle of every slice of >= 3 points.
+   multi-knee: positions 1,2,3,5; worst-knee keeps all four (heights 11, 6, 5, 2.5); the corner filter at t = 0.33 drops
+   position 3 (IoU exactly 0.5; kept IoUs 0.238.., 0.055.., 0.3); single linkage at t = 0.3 on x = 2, 3, 7 labels 0,0,1;
+   linear ranking keeps the better-scored member 2 of cluster {1,2} and the singleton 5; mapping gives original indices 3, 7.
+   Second line: the filters alone on knees 1..5 (worst-knee drops position 5, height 2.5 > 2), hull ranking. *)
+Definition ex_xo := fun i => nth i [0; 1; 2; 3; 4; 5; 6; 7; 8; 9]%float 0%float.
+Definition ex_yo := fun i => nth i [20; 12; 11; 6; 7; 5; 2; 2.5; 1; 0.5]%float 0%float.
+Definition ex_red := [0; 2; 3; 5; 6; 7; 9].
+Definition ex_score (c : list nat) : list float := map (fun k => nth k [0; 0.25; 0.5; 0.125; 0.75; 0.1; 0]%float 0%float) c.
+Definition ex_knee1 (red : list nat) (l r : nat) : option nat := if 3 <=? r - l then Some ((r - l) / 2) else None.
+Example C08_closed_example :
+  WFb 10 ex_red = true /\
+  @pipeline_closed FloatNum (Some (ex_red, rows ex_red)) MkSmape (fun _ _ _ => 1%float) ex_knee1 0.5%float 2 ex_xo ex_yo
+     0.33%float Single 0.3%float (@argsort_stable FloatNum) (fun _ => ex_score) (fun _ _ _ => 1%float) MLinear = Some [3; 7] /\
+  @pipeline_filters FloatNum ex_red (rows ex_red) ex_xo ex_yo [1; 2; 3; 4; 5] 0.33%float Single 0.3%float (@argsort_stable FloatNum)
+     ex_score (@graham_scan_lower FloatNum (@reduced_points FloatNum ex_xo ex_yo ex_red)) (fun _ _ => 1%float) MHull = Some [3; 6] /\
+  @filter_corner FloatNum (@reduced_points FloatNum ex_xo ex_yo ex_red) [1; 2; 3; 4] 0.33%float = [1; 2; 4] /\
+  @corner_rule_b FloatNum (@reduced_points FloatNum ex_xo ex_yo ex_red) 0.33%float [1; 2; 3; 4] [1; 2; 4] = true /\
+  @corner_rule_b FloatNum (@reduced_points FloatNum ex_xo ex_yo ex_red) 0.33%float [1; 2; 3; 4] [1; 2; 3; 4] = false /\
+  @c11_labels FloatNum Single (map fst (@reduced_points FloatNum ex_xo ex_yo ex_red)) 0.3%float [1; 2; 4] = Some [0; 0; 1].
+Proof. vm_compute. repeat split; reflexivity. Qed.
